@@ -413,7 +413,7 @@ class VBool(metaclass=_VBoolMeta):
 # hashlib
 # ---------------------------------------------------------------------------------------------------------------
 
-_DIGEST_BITS = {'sha256': 256, 'sha512': 512}
+_DIGEST_BITS = {'sha256': 256, 'sha512': 512, 'crc16': 16, 'crc32c': 32}
 
 
 def digest_of(alg, seq: Seq):
@@ -421,6 +421,9 @@ def digest_of(alg, seq: Seq):
     if seq.is_concrete():
         n = seq.length()
         data = seq.value().to_bytes(n // 8, 'big') if n else b''
+        if alg in ('crc16', 'crc32c'):
+            from .spec import crc as _crc
+            return _crc.crc16_xmodem(data) if alg == 'crc16' else _crc.crc32c(data)
         return getattr(_hashlib, alg)(data).digest()
     c = ctx()
     reg = c.store.setdefault('digests', [])
